@@ -50,7 +50,9 @@ def corpus_scenario(seed, index, tier):
         return "c10", s
     if k == 4:
         fam = c11.ProxyFamily("x", "asyncio", 0, 0)
-        return "c11", fam.generate(seed, index // 11, tier)
+        s = fam.generate(seed, index // 11, tier)
+        s["callers"] = s["callers"][:1]      # without the concurrent companions
+        return "c11", s
     if k == 5:
         fam = c17.UpgradeFamily("C17", "x", 0, 0)
         return "c17", fam.generate(seed, index // 11, tier)
@@ -61,7 +63,7 @@ def corpus_scenario(seed, index, tier):
         fam = c15.ScratchFamily("C15", "x", 0, 0)
         return "c15", fam.generate(seed, index // 11, tier)
     # single-caller I/O-fault runs on the C05 bases (company "alone")
-    b = c05.base_scenario(seed, (index // 11) % 11, "asyncio")
+    b = c05.base_scenario(seed, (index // 11) % len(c05.CTYPES), "asyncio")
     b["epilogue"] = ["observe", "close_pool"]
     if k == 8:
         b["net"]["fault_once"] = r.choice(["read_error", "write_error", "eof", "connect_error",
@@ -69,9 +71,20 @@ def corpus_scenario(seed, index, tier):
                                            "connect_timeout", "tls_timeout"])
         return "c05", b
     fam = c16.ArgsFamily("x", "asyncio", 0, 0)
-    s = fam.generate(seed, (index // 11) % 11, tier)
+    s = fam.generate(seed, (index // 11) % len(c05.CTYPES), tier)
     s["epilogue"] = ["observe", "close_pool"]
     return "c16", s
+
+
+def add_second_access(scn, r):
+    """A caller may stop iterating a response part-way and then ask for the body again
+    (Response.read / iter_stream in _models.py have hand-written sync and async twins):
+    both variants must answer alike."""
+    for c in scn.get("callers", ()):
+        for op in c.get("ops", ()):
+            if op.get("op") == "request" and op.get("consume", "all") in ("all", "close") \
+                    and r.random() < 0.5:
+                op["consume"] = {"chunks": r.choice([0, 1, 1, 2]), "then": r.choice(["read", "iter"])}
 
 
 def to_sync(scn):
@@ -124,11 +137,11 @@ def projection(res):
     outs = {}
     for key, out in sorted(res.outcomes.items()):
         keys = ("status", "headers", "body", "complete", "exc", "phase", "failed_phase",
-                "net_reads")
+                "net_reads", "second_access")
         if res.error:
             # the run was torn down with callers still blocked: how the harness ends
             # them differs by executor
-            keys = ("status", "headers", "body", "complete", "exc", "net_reads")
+            keys = ("status", "headers", "body", "complete", "exc", "net_reads", "second_access")
         o = {k: v for k, v in out.items() if k in keys}
         if "msg" in out:
             o["msg"] = out["msg"].replace("Async", "")
@@ -243,6 +256,9 @@ class DiffFamily(Family):
     def run_unit(self, seed, index, tier):
         u = Unit()
         src, scn = corpus_scenario(seed, index, tier)
+        r2 = gen.mk_rng(seed, "c18second")
+        if src in ("c02", "c03", "c09", "c10", "c11", "c16") and r2.random() < 0.25:
+            add_second_access(scn, r2)
         scn["c18src"] = src
         scn["c18lock"] = (index % 3 == 0)
         ra, rs = self.run_pair(scn, lockstep=scn["c18lock"])
